@@ -142,9 +142,71 @@ class Bench:
         return out
 
 
+def dynamic_facts(ctx):
+    """The same four facts read from the BEHAVIOUR of the real main() on the stub pipeline (used when the source patterns are
+    not recognised, e.g. after a refactoring): which output folders a resume lists, how a page id is recovered from an output
+    file name, in which order a page's outputs are written, whether a run with nothing to do exits cleanly."""
+    with Bench(ctx) as b:
+        b.clean()
+        if b.run(KINDS, skip=False) != 'ok':
+            raise ValueError('uninterrupted run on the stub pipeline failed')
+        first = None
+        order = []
+        for rel in b.inj.log:                      # o_<kind>/<file> in write order; the first page's writes give the order
+            kind, fname = rel.split(os.sep)[0][2:], rel.split(os.sep)[-1]
+            page = next((p for p in PAGES if fname.startswith(p)), None)
+            first = first or page
+            if page == first and kind not in order:
+                order.append(kind)
+        if sorted(order) != sorted(KINDS):
+            raise ValueError('write order not observed: %r' % (order,))
+        listed = []
+        real_listdir = os.listdir
+
+        def rec(d='.'):
+            d2 = str(d)
+            if d2.startswith(os.path.join(b.root, 'o_')):
+                k = os.path.basename(d2.rstrip(os.sep))[2:]
+                if k not in listed:
+                    listed.append(k)
+            return real_listdir(d)
+        os.listdir = rec
+        try:
+            res = b.run(KINDS, skip=True)
+        finally:
+            os.listdir = real_listdir
+        probe = tempfile.mkdtemp(prefix='verif_c17_m_')
+        try:
+            for f in ('a.xml.b.xml', 'c.d.jpg', 'p1.logits', 'x.txt'):
+                open(os.path.join(probe, f), 'w').close()
+            ids = set(b.pf.load_already_processed_files_in_directory(probe))
+        finally:
+            shutil.rmtree(probe, ignore_errors=True)
+        if ids == {'a.xml.b', 'c.d', 'p1'}:
+            matcher = 'splitext'
+        elif ids == {'a', 'c.d', 'p1'}:
+            matcher = 'lazyRegex'
+        else:
+            raise ValueError('stem matcher not classified: %r' % (sorted(ids),))
+        return dict(checked=listed, matcher=matcher, write_order=order, division_guarded=(res == 'ok'))
+
+
 def translate(ctx):
     """Resume protocol facts read from parse_folder.py -> Generated/ParseFolder.lean."""
     try:
+        facts = static_facts(ctx)
+    except Exception as e:
+        try:
+            facts = dynamic_facts(ctx)
+            ctx.notes.append('translator:parse-folder: source patterns not recognised (%r); facts read from the behaviour of main()' % (e,))
+        except Exception as e2:
+            ctx.brk('translator:parse-folder', 'static: %r; dynamic: %r' % (e, e2))
+            return
+    write_facts(ctx, facts)
+
+
+def static_facts(ctx):
+    if True:
         src = open(os.path.join(common.REPO, 'user_scripts/parse_folder.py')).read()
         tree = ast.parse(src)
         # (1) directories consulted
@@ -185,7 +247,12 @@ def translate(ctx):
         main = [n for n in ast.walk(tree) if isinstance(n, ast.FunctionDef) and n.name == 'main'][0]
         mtxt = ast.unparse(main)
         unguarded = '/ len(ids_to_process)' in mtxt and not re.search(r'if (len\(ids_to_process\)( > 0)?|ids_to_process):\s*\n\s*logger\.info\(f?.AVERAGE', mtxt)
-        facts = dict(checked=checked, matcher=matcher, write_order=order, division_guarded=not unguarded)
+        return dict(checked=checked, matcher=matcher, write_order=order, division_guarded=not unguarded)
+
+
+def write_facts(ctx, facts):
+    if True:
+        checked, matcher, order, unguarded = facts['checked'], facts['matcher'], facts['write_order'], not facts['division_guarded']
         ctx.cov['translated'] = facts
         ctx.facts = facts
         kl = lambda ks: '[' + ', '.join('.' + k for k in ks) + ']'
@@ -202,8 +269,6 @@ def translate(ctx):
         p = os.path.join(common.LEAN, 'PeroVerif', 'Generated', 'ParseFolder.lean')
         if not os.path.exists(p) or open(p).read() != out:
             open(p, 'w').write(out)
-    except Exception as e:
-        ctx.brk('translator:parse-folder', repr(e))
 
 
 def expected_complete(b, kinds, reference):
